@@ -458,6 +458,24 @@ def run_task(desc):
         for sp, cls in HS.numeric_spellings(80):
             numeric.append(b"HTTP/1.1 301 Moved\r\nLocation: ws://h:" + sp + b"/x\r\n\r\n")
             numeric.append(b"HTTP/1.1 301 Moved\r\nLocation: wss://[::1]:" + sp + b"\r\n\r\n")
+        # Set-Cookie headers of a successful response in the shapes a "log out" / "rotate" answer has: expired, repeated, same domain
+        def cookie_resp(lines):
+            def f(req):
+                head = [b"HTTP/1.1 101 Switching Protocols", b"Upgrade: websocket", b"Connection: Upgrade", b"Sec-WebSocket-Accept: " + HS.accept_for(req["key"]).encode()]
+                return b"\r\n".join(head + [b"Set-Cookie: " + c for c in lines]) + b"\r\n\r\n"
+            return f
+        COOKIES = [b"a=1; Domain=example.com; Max-Age=0", b"b=2; Domain=example.com; Max-Age=0", b"a=1; Domain=example.com; Max-Age=-1", b"a=; Domain=example.com; Expires=Thu, 01 Jan 1970 00:00:00 GMT",
+                   b"a=1; Domain=example.com", b"a=2; Domain=.EXAMPLE.com", b"c=3", b"d=4; Domain=", b"e=5; Domain=example.com; Max-Age=abc", b"f=6; Domain=example.com; Max-Age=99999999999999999999",
+                   b"g=7; Domain=example.com; Secure; HttpOnly; SameSite=None; Path=/x", b"=nokey; Domain=example.com", b"h; Domain=example.com"]
+        ncookie = 0
+        for k in (1, 2, 3):
+            for combo in itertools.product(range(len(COOKIES)), repeat=k):
+                if k == 3 and not (combo[0] <= 3 and combo[1] <= 5):
+                    continue
+                ncookie += 1
+                n += 1
+                rec(guarded(hs_case, cookie_resp([COOKIES[i] for i in combo]), "timeout", None), {"case": "hs-cookies", "combo": list(combo)})
+        res["samples"].append({"set_cookie_combinations": ncookie})
         for s in numeric:
             for ending in ENDINGS:
                 n += 1
@@ -632,6 +650,6 @@ def replay(rep):
     elif c == "fr" and "declared" not in rep:
         f = fr_case(rep["stream"], rep["ending"], rep["api"], rep.get("one", False))
     else:
-        res = run_task({"part": {"hs-corrupt": "hs-corrupt", "hs-meta": "hs-special", "fr-meta": "fr-lengths", "fr": "fr-lengths", "hs-field": "hs-fields"}[c], "name": "replay"})
+        res = run_task({"part": {"hs-corrupt": "hs-corrupt", "hs-meta": "hs-special", "hs-cookies": "hs-special", "fr-meta": "fr-lengths", "fr": "fr-lengths", "hs-field": "hs-fields"}[c], "name": "replay"})
         return res["failures"][0]["what"] if res["failures"] else None
     return None if f is None else {"sig": f[0], "what": f[1]}
